@@ -719,3 +719,34 @@ func genHugeScenario(t *rapid.T) *Scenario {
 	sc.Steps = append(sc.Steps, Step{Kind: "sleep", N: rapid.SampledFrom([]int{1, 11}).Draw(t, "secs")})
 	return sc
 }
+
+// genHugeACLScenario: an all-targets subscriber that is denied a target holding 10000-70000 leaves (counts past any
+// "every N-th" bookkeeping one might think of) and allowed a small one: the snapshot and every later refresh of the
+// big target must be withheld completely, the small target delivered completely.
+func genHugeACLScenario(t *rapid.T) *Scenario {
+	sc := &Scenario{Targets: 2, TimeoutSec: 10}
+	sc.EventDriven = rapid.Bool().Draw(t, "eventdriven")
+	big := rapid.IntRange(0, 1).Draw(t, "denied-target")
+	allow := []bool{true, true}
+	allow[big] = false
+	sc.ACL = &ACLSpec{Allow: [][]bool{allow}, FailUser: []bool{false}, FailKind: []string{""}}
+	n := rapid.SampledFrom([]int{10000, 10240, 20001, 32768, 65537}).Draw(t, "leaves")
+	sc.Steps = append(sc.Steps, Step{Kind: "w", W: &WOp{Kind: "noti", T: big, Bulk: &Bulk{Start: 0, N: n, V: 1}}})
+	sc.Steps = append(sc.Steps, Step{Kind: "w", W: &WOp{Kind: "noti", T: 1 - big, Bulk: &Bulk{Start: 0, N: rapid.IntRange(1, 5).Draw(t, "small"), V: 1}}})
+	mode := rapid.SampledFrom([]string{"stream", "stream", "once", "poll"}).Draw(t, "mode")
+	sc.Subs = append(sc.Subs, SubSpec{Mode: mode, Target: -1, Paths: []PathSpec{{}}})
+	sc.Steps = append(sc.Steps, Step{Kind: "start", Sub: 0}, Step{Kind: "drain"})
+	for i, k := 0, rapid.IntRange(1, 2).Draw(t, "refreshes"); i < k; i++ {
+		// the whole big target again with another value (every leaf is fed), then something for the small one
+		sc.Steps = append(sc.Steps, Step{Kind: "w", W: &WOp{Kind: "noti", T: big, Bulk: &Bulk{Start: 0, N: n, V: int64(2 + i)}}})
+		sc.Steps = append(sc.Steps, Step{Kind: "w", W: &WOp{Kind: "noti", T: 1 - big, Updates: []Upd{{Path: []gn.Elem{{Name: "fresh"}}, Val: gn.Val{Kind: "int", I: int64(i)}}}}})
+		if mode == "poll" {
+			sc.Steps = append(sc.Steps, Step{Kind: "poll", Sub: 0})
+		}
+		sc.Steps = append(sc.Steps, Step{Kind: "drain"})
+	}
+	if rapid.Bool().Draw(t, "delete-all") {
+		sc.Steps = append(sc.Steps, Step{Kind: "w", W: &WOp{Kind: "noti", T: big, Deletes: [][]gn.Elem{{{Name: "*"}}}}}, Step{Kind: "drain"})
+	}
+	return sc
+}
